@@ -211,6 +211,17 @@ where
     }
 }
 
+#[cfg(feature = "verif-hooks")]
+impl<T> Broadcasts<T> {
+    // (data, remaining_tx) of every pending entry, in no particular order
+    pub(crate) fn verif_entries(&self) -> Vec<(Vec<u8>, usize)> {
+        self.flip
+            .iter()
+            .map(|entry| (entry.data.clone(), entry.remaining_tx))
+            .collect()
+    }
+}
+
 #[derive(Debug, Clone)]
 struct Entry<T> {
     remaining_tx: usize,
